@@ -174,3 +174,9 @@ package graph
 //@     invariant grows: forall x *Node :: atloop(2, has(seenNode, x)) ==> has(seenNode, x)
 //@   loop 3
 //@     invariant grows_inner: forall x *Node :: atloop(2, has(seenNode, x)) ==> has(seenNode, x)
+
+// ---- C04 (strengthened after seeded change call-tree-drops-unsymbolized-locations): in the call-tree builder every
+// location of a sample is visited with at least one (possibly empty) line, so unsymbolized frames are kept ----
+//@ func newTree funcvalues=pure nosafety
+//@   loop 3
+//@     invariant nonempty: len(lines) >= 1
